@@ -11,3 +11,4 @@ PROPS['C05'] = ('sched_family', 'c05')
 PROPS['C19'] = ('sched_family', 'c19')
 PROPS['C11'] = ('sched_family', 'c11')
 PROPS['C10'] = ('sched_family', 'c10')
+PROPS['C15'] = ('core_family', 'c15')
